@@ -535,18 +535,47 @@ func runC49(c *Ctx) {
 		c.Ob("separator-aligned", "List#listed-key-is-under-the-directory", call.Pos(), okUnder, "a key is listed only after it was found under dir+\"/\" (both in the recursive and the non-recursive branch)")
 	}
 	c.Floor("List result append sites", napp, 2)
+	// children deduplicated: every append that can run in the non-recursive mode emits a
+	// value that is put into a seen-set on the same path, and only when it was absent from it
 	okSeen := false
-	ast.Inspect(ls.Body, func(n ast.Node) bool {
-		if as, ok := n.(*ast.AssignStmt); ok && len(as.Lhs) == 1 {
-			if ix, ok := as.Lhs[0].(*ast.IndexExpr); ok && types_ExprString(ix.X) == "seen" {
-				okSeen = ls.FactsAt(as).Cmp(func(e, tag ast.Expr, truth bool, fa *Fact) bool {
-					id, ok := e.(*ast.Ident)
-					return ok && !truth && id.Name == "ok"
-				})
+	{
+		inserts := ls.seenInserts(ls.Body)
+		nNonRec, nOK := 0, 0
+		for _, call := range ls.Calls(false, func(call *ast.CallExpr) bool {
+			id, ok := call.Fun.(*ast.Ident)
+			return ok && id.Name == "append" && len(call.Args) == 2 && strings.Contains(ls.Prov(call.Args[0]), "builtin:make") && ls.varOf(call.Args[0]) != nil
+		}) {
+			if _, isStr := typeOf(ls.Info, call.Args[1]).Underlying().(*types.Basic); !isStr {
+				continue
+			}
+			recursiveOnly := ls.FactsAt(call).Cmp(func(e, tag ast.Expr, truth bool, fa *Fact) bool {
+				return tag == nil && truth && ls.Prov(e) == "param#2"
+			})
+			if recursiveOnly {
+				continue
+			}
+			nNonRec++
+			elem := ls.Prov(call.Args[1])
+			for _, in := range inserts {
+				if in.key != elem || !ls.notInSeen(ls.FactsAt(in.at), in.m, in.key) {
+					continue
+				}
+				// the append is not reachable without passing the insertion
+				reached, _ := ls.Reach(nil, func(n ast.Node) bool { return containsNode(n, in.at) }, nil)
+				bypass := false
+				for _, n := range reached {
+					if containsNode(n, call) {
+						bypass = true
+					}
+				}
+				if !bypass {
+					nOK++
+					break
+				}
 			}
 		}
-		return true
-	})
+		okSeen = nNonRec >= 1 && nOK == nNonRec
+	}
 	c.Ob("list", "List#children-deduplicated", ls.Decl.Pos(), okSeen, "in the non-recursive listing each child is reported once")
 }
 
